@@ -118,11 +118,16 @@ pub fn check_sphere_point(run: &mut Run, p: V3, class: &str) {
     }
     // second-nearest face: the neighbour across the closest edge. Skip the (measure-zero) vicinity of dodecahedron vertices'
     // three-way ties only when the runner-up and the third are indistinguishable
-    let d2 = order[2].1;
-    if d2 - d1 < 1e-12 {
-        run.count("second_face.three_way_tie_skipped");
-        return;
+    // At a face centre all five neighbours tie for second place, at a dodecahedron vertex three faces tie for first: every
+    // face that ties for second place is "the" second-nearest face and is judged.
+    // (a tie means: indistinguishable at the accuracy of the distance computation itself, 2e-15 rad; a face that is further by
+    // more than that is not the second-nearest, and the point is then - by a hair - outside the triangle reflected across the
+    // closest edge, where nothing is promised)
+    let tied: Vec<u8> = order[1..].iter().filter(|(_, d)| d - d1 < 2e-15).map(|(f, _)| *f).collect();
+    if tied.len() > 1 {
+        run.count("second_face.ties_all_judged");
     }
+    for f1 in tied {
     match fwd(p, f1) {
         Ok(q) => {
             let sd = convex_signed_dist(&pent, q);
@@ -140,6 +145,7 @@ pub fn check_sphere_point(run: &mut Run, p: V3, class: &str) {
             }
         }
         Err(e) => run.violation("C15.ok", case(), format!("forward relative to the second-nearest face failed: {e}")),
+    }
     }
     if run.wants_sample(class) {
         run.sample(class, || json!({"lonlat": lonlat_from_unit(p), "nearest_face": f0, "second_face": f1, "planar": fwd(p, f0).ok()}));
@@ -498,6 +504,38 @@ fn zoom(run: &mut Run, q: P2, face: u8, h: f64, class: &str) {
     }
 }
 
+/// a planar triangle of circumradius `size` centred at a located jump: its image must have (roughly) the area the constant
+/// scale dictates. At sizes down to 1e-11 the projection's rounding noise (~3e-14) allows no more than a coarse statement:
+/// an image area off by more than 30 % is a collapsed or torn region.
+pub fn check_collapse(run: &mut Run, q: P2, face: u8, size: f64, rot: f64) {
+    if size < 1e-11 {
+        run.count("collapse_probes.skipped_below_the_noise_floor");
+        return;
+    }
+    let tri: Vec<P2> = (0..3).map(|k| [q[0] + size * (rot + 2.094_395_102_393_195_5 * k as f64).cos(), q[1] + size * (rot + 2.094_395_102_393_195_5 * k as f64).sin()]).collect();
+    let s0 = sector(q);
+    if tri.iter().any(|p| sector(*p) != s0 || !in_projection_domain(*p)) {
+        run.count("collapse_probes.skipped_straddling_seam_or_edge");
+        return;
+    }
+    let img: Option<Vec<V3>> = tri.iter().map(|p| inv(*p, face).ok()).collect();
+    let Some(img) = img else { return };
+    run.evaluations += 1;
+    run.count("collapse_probes.measured");
+    let planar = poly_area2(&tri).abs() / 2.0;
+    let c = normalize(add(add(img[0], img[1]), img[2]));
+    let sph = sph_area_small(&img, c).abs();
+    let rel = (sph / (planar * k_const()) - 1.0).abs();
+    let case = || json!({"q": [hx(q[0]), hx(q[1])], "q_dec": q, "face": face, "size": size, "rot": rot, "class": "collapse_probe"});
+    if run.margin("collapse_probe_relative_area_error", rel, 0.3, case) {
+        run.violation(
+            "C16.collapse",
+            case(),
+            format!("a planar triangle of size {:.2e} at {:?} on face {face} (a located discontinuity of the inverse projection) has an image area off by {:.3e} (relative): a collapsed or torn region", size, q, rel),
+        );
+    }
+}
+
 pub fn check_small_triangle(run: &mut Run, q: P2, face: u8, size: f64, rot: f64) {
     check_small_triangle_with(run, q, face, size, rot, 5e-4)
 }
@@ -622,6 +660,13 @@ fn run_c16(ctx: &Ctx) -> Run {
                 None => (q, face, class),
             };
             check_jacobian(run, q, face, class);
+            if class == "located_discontinuity" {
+                // a located jump may sit closer to a triangle corner than any stencil can go: measure a triangle a few jump
+                // widths across that straddles it, against the only thing measurable at that scale - collapse or tearing
+                if let Some((lq, lface, jump)) = crate::loci::pick_inverse_locus(&mut rng) {
+                    check_collapse(run, lq, lface, jump * rng.range(1.0, 6.0), rng.range(0.0, 2.1));
+                }
+            }
             if i % 4 == 0 {
                 let size = rng.log10(2.5, 5.0);
                 check_small_triangle(run, q, face, size, rng.range(0.0, 2.1));
@@ -661,7 +706,9 @@ fn replay_c16(check: &str, case: &Value, run: &mut Run) -> Option<()> {
     let q = case.get("q")?.as_array()?;
     let q = [parse_f(&q[0])?, parse_f(&q[1])?];
     let face = case["face"].as_u64()? as u8;
-    if let Some(size) = case.get("size").and_then(|s| s.as_f64()) {
+    if check == "C16.collapse" {
+        check_collapse(run, q, face, case["size"].as_f64()?, case["rot"].as_f64().unwrap_or(0.0));
+    } else if let Some(size) = case.get("size").and_then(|s| s.as_f64()) {
         check_small_triangle(run, q, face, size, case["rot"].as_f64().unwrap_or(0.0));
     } else if let Some(w) = case.get("stencil").and_then(|s| s.as_f64()) {
         let axis = case["axis"].as_u64().unwrap_or(0);
